@@ -1,319 +1,21 @@
-import MpsVerif.Proofs.IterQueueCount
+import MpsVerif.Proofs.IterQueueInvS
+import MpsVerif.Proofs.IterQueueInvC1
+import MpsVerif.Proofs.IterQueueInvC2
+import MpsVerif.Proofs.IterQueueInvR
 /-!
-# The inductive invariant of the `IterableQueue` model (token conservation, one extra marker,
-FIFO completeness, exactly-once logs)
+# The inductive invariant of the `IterableQueue` model is preserved by every step
+(`Inv` itself: `IterQueueInvDef.lean`; the case analysis is split over four files that build in parallel)
 -/
 namespace IterQueue
 
-structure Inv (c : Cfg) (s : State) : Prop where
-  lenS : s.sups.length = c.m
-  lenC : s.cons.length = c.n
-  /-- token conservation -/
-  tok : s.spare + cntS SPc.isPe1 s.sups + s.applied + cntC CPc.isGive s.cons + s.used = c.m
-  spareEq : s.spare = cntS SPc.notStarted s.sups
-  /-- every marker (in the queue or in a consumer's hand) is backed by an applied token, except the
-      one extra marker -/
-  mkr : marksOf s.queue + (cntC CPc.isChk2 s.cons + cntC CPc.isReput s.cons + cntC CPc.isLock s.cons
-        + cntC CPc.isTake s.cons) + cntS SPc.noMark s.sups = s.applied + ind s.extraOut
-  mutex : cntC CPc.isTake s.cons + cntC CPc.isGive s.cons + cntC CPc.isTest s.cons + cntC CPc.isUnlT s.cons
-        + cntC CPc.isUnlF s.cons = ind s.lock
-  wLt : s.used < c.m → ind s.extraOut + cntC CPc.isUnlT s.cons + cntC CPc.isExtra s.cons
-        + cntC CPc.isReput s.cons + cntC CPc.isDone s.cons = 0
-  /-- once the token set is complete there is exactly one "winner": about to read `full()` under the
-      lock, about to add the extra marker, or having added it -/
-  wEq : c.m ≤ s.used → ind s.extraOut + cntC CPc.isUnlT s.cons + cntC CPc.isExtra s.cons
-        + cntC CPc.isTest s.cons = 1
-  fifo : fifoOk (endedAt s.sups) s.queue = true
-  noItems : c.m ≤ s.used → itemsOf s.queue = []
-  rn : s.rpc = .get → c.m ≤ s.used ∧ ∀ a ∈ s.cons, a.pc = .done
-  rf : s.rpc ≠ .failed
-  perm : (s.putLog.map Prod.snd).Perm (s.gotLog.map Prod.snd ++ (itemsOf s.queue).map Prod.snd)
-  hist : ∀ pg ∈ s.hist, (pg.1.map Prod.snd).Perm (pg.2.map Prod.snd)
-  /-- a complete token set means every supplier's marker has been enqueued -/
-  nme : c.m ≤ s.used → cntS SPc.noMark s.sups = 0
-  /-- nobody is on the way to the token hand-over once the token set is complete -/
-  lkT : c.m ≤ s.used → cntC CPc.isLock s.cons + cntC CPc.isTake s.cons = 0
-
-/-- all `≥` facts about the consumer counts that follow from "consumer `j` is `a`" -/
-macro "cfacts" h:ident : tactic => `(tactic| (
-  have := cntC_ge CPc.isChk2 $h; have := cntC_ge CPc.isReput $h; have := cntC_ge CPc.isLock $h
-  have := cntC_ge CPc.isTake $h; have := cntC_ge CPc.isGive $h; have := cntC_ge CPc.isTest $h
-  have := cntC_ge CPc.isUnlT $h; have := cntC_ge CPc.isUnlF $h; have := cntC_ge CPc.isExtra $h
-  have := cntC_ge CPc.isDone $h))
-
-macro "sfacts" h:ident : tactic => `(tactic| (
-  have := cntS_ge SPc.isPe1 $h; have := cntS_ge SPc.notStarted $h; have := cntS_ge SPc.noMark $h))
-
-/-- numeric part of a step of consumer `j` (`h : s.cons[j]? = some a`, `hpc : a.pc = …`); the
-    `rn` clause is discharged with `hnr : s.rpc ≠ .get` -/
-macro "cfin" h:ident hpc:ident hnr:ident : tactic => `(tactic| (
-  refine ⟨?_, ?_, ?_, ?_, ?_, ?_, ?_, ?_, ?_, ?_, ?_, ?_, ?_, ?_, ?_, ?_⟩ <;>
-    simp only [cntC_set $h, List.length_set, marksOf_append_mark, itemsOf_append_mark] <;>
-    simp only [$hpc:ident, CPc.isChk2, CPc.isReput, CPc.isLock, CPc.isTake, CPc.isGive, CPc.isTest,
-      CPc.isUnlT, CPc.isUnlF, CPc.isExtra, CPc.isDone, ind_true, ind_false, usedFull,
-      decide_eq_true_eq, decide_eq_false_iff_not, Nat.not_le, marksOf, itemsOf, fifoOk] at * <;>
-    first | assumption | omega | (intro hr; exact absurd hr $hnr) | (intro _; omega) | skip))
-
-macro "sfin" h:ident hpc:ident : tactic => `(tactic| (
-  refine ⟨?_, ?_, ?_, ?_, ?_, ?_, ?_, ?_, ?_, ?_, ?_, ?_, ?_, ?_, ?_, ?_⟩ <;>
-    simp only [cntS_set $h, List.length_set, marksOf_append_mark, itemsOf_append_mark,
-      marksOf_append_item, itemsOf_append_item] <;>
-    simp only [$hpc:ident, SPc.isPe1, SPc.notStarted, SPc.noMark, ind_true, ind_false, usedFull,
-      decide_eq_true_eq, decide_eq_false_iff_not, Nat.not_le] at * <;>
-    first | assumption | omega | (intro _; omega) | skip))
-
-theorem fifo_set {sups : List Sup} {i : Nat} {a : Sup} (b : Sup) {q : List QItem}
-    (h : sups[i]? = some a) (hb : b.pc.isEnded = true → a.pc.isEnded = true)
-    (hf : fifoOk (endedAt sups) q = true) : fifoOk (endedAt (sups.set i b)) q = true :=
-  fifoOk_mono _ _ (endedAt_set_le sups i a b h hb) q hf
-
-theorem room_of_empty (c : Cfg) (s : State) (h : s.queue = []) : room c s = true := by
-  simp only [room, h, List.length_nil, Bool.or_eq_true, beq_iff_eq, decide_eq_true_eq]
-  omega
-
-set_option maxHeartbeats 1000000 in
 theorem inv_step (c : Cfg) (hm : 1 ≤ c.m) (hn : 1 ≤ c.n) (s s' : State) (a : Act)
     (hi : Inv c s) (hs : Step c s a s') : Inv c s' := by
-  obtain ⟨lenS, lenC, tok, spareEq, mkr, mutex, wLt, wEq, fifo, noItems, rn, rf, perm, hist, nme, lkT⟩ := hi
-  have hlock := ind_le s.lock
-  have hE := ind_le s.extraOut
-  cases hs with
-  -- ------------------------------------------------------------ suppliers
-  | sPutBeg i x a h hpc =>
-    sfacts h
-    sfin h hpc
-    exact fifo_set _ h (by simp) fifo
-  | sPut i x a h hpc hroom =>
-    sfacts h
-    sfin h hpc
-    · exact fifoOk_append_item _ _ _ _ (fifo_set _ h (by simp) fifo) (endedAt_set_self _ _ _ _ h (by simp))
-    · simp only [List.map_append, List.map_cons, List.map_nil]
-      have := perm.append_right [x]
-      simpa [List.append_assoc] using this
-  | sEndBeg i a h hpc hsp =>
-    sfacts h
-    sfin h hpc
-    exact fifo_set _ h (by simp) fifo
-  | sApply i a h hpc hap =>
-    sfacts h
-    sfin h hpc
-    exact fifo_set _ h (by simp) fifo
-  | sMark i a h hpc hroom =>
-    sfacts h
-    sfin h hpc
-    exact fifoOk_append_mark _ _
-  | sRetry i a h hw hroom hdue hstop =>
-    sfacts h
-    refine ⟨?_, ?_, ?_, ?_, ?_, ?_, ?_, ?_, ?_, ?_, ?_, ?_, ?_, ?_, ?_, ?_⟩ <;>
-      simp only [cntS_set h, List.length_set] <;> first | assumption | omega | skip
-    exact fifo_set _ h (by simp) fifo
-  | sStop i a h hw hroom hdue hstop =>
-    sfacts h
-    cases hpc : a.pc <;> simp [SPc.waiting, hpc] at hw
-    · have hf2 := fifo_set { a with pc := SPc.stoppedP } h (by simp) fifo
-      simp only [reduceCtorEq, if_false]
-      sfin h hpc
-    · have hf2 := fifo_set { a with pc := SPc.stoppedE } h (by simp) fifo
-      simp only [if_true]
-      sfin h hpc
-  -- ------------------------------------------------------------ consumers
-  | cChk1Full j a h hpc hf =>
-    cfacts h
-    have hnr : s.rpc ≠ .get := by
-      intro hr; have := (rn hr).2 a (mem_of_getElem? h); simp [hpc] at this
-    cfin h hpc hnr
-  | cChk1Go j a h hpc hf =>
-    cfacts h
-    have hnr : s.rpc ≠ .get := by
-      intro hr; have := (rn hr).2 a (mem_of_getElem? h); simp [hpc] at this
-    cfin h hpc hnr
-  | cGetItem j i x rest a h hpc hq =>
-    cfacts h
-    have hnr : s.rpc ≠ .get := by
-      intro hr; have := (rn hr).2 a (mem_of_getElem? h); simp [hpc] at this
-    rw [hq] at mkr fifo noItems perm
-    cfin h hpc hnr
-    · simp only [Bool.and_eq_true] at fifo; exact fifo.2
-    · intro hu; have := noItems hu; simp at this
-    · simpa [List.append_assoc] using perm
-  | cGetMark j rest a h hpc hq =>
-    cfacts h
-    have hnr : s.rpc ≠ .get := by
-      intro hr; have := (rn hr).2 a (mem_of_getElem? h); simp [hpc] at this
-    rw [hq] at mkr fifo noItems perm
-    cfin h hpc hnr
-  | cChk2Full j a h hpc hf =>
-    cfacts h
-    have hnr : s.rpc ≠ .get := by
-      intro hr; have := (rn hr).2 a (mem_of_getElem? h); simp [hpc] at this
-    cfin h hpc hnr
-  | cChk2Go j a h hpc hf =>
-    cfacts h
-    have hnr : s.rpc ≠ .get := by
-      intro hr; have := (rn hr).2 a (mem_of_getElem? h); simp [hpc] at this
-    cfin h hpc hnr
-  | cReput j a h hpc hroom =>
-    cfacts h
-    have hnr : s.rpc ≠ .get := by
-      intro hr; have := (rn hr).2 a (mem_of_getElem? h); simp [hpc] at this
-    cfin h hpc hnr
-    exact fifoOk_append_mark _ _
-  | cLock j a h hpc hl =>
-    cfacts h
-    have hnr : s.rpc ≠ .get := by
-      intro hr; have := (rn hr).2 a (mem_of_getElem? h); simp [hpc] at this
-    simp only [hl, ind_false] at mutex
-    cfin h hpc hnr
-  | cTake j a h hpc hap =>
-    cfacts h
-    have hnr : s.rpc ≠ .get := by
-      intro hr; have := (rn hr).2 a (mem_of_getElem? h); simp [hpc] at this
-    cfin h hpc hnr
-  | cGive j a h hpc hu =>
-    cfacts h
-    have hnr : s.rpc ≠ .get := by
-      intro hr; have := (rn hr).2 a (mem_of_getElem? h); simp [hpc] at this
-    have hni : c.m ≤ s.used + 1 → itemsOf s.queue = [] := by
-      intro hu2
-      have e1 : cntS SPc.notStarted s.sups = 0 := by
-        simp only [hpc, CPc.isGive, ind_true] at *; omega
-      have e2 : cntS SPc.isPe1 s.sups = 0 := by
-        simp only [hpc, CPc.isGive, ind_true] at *; omega
-      have e3 : cntS SPc.noMark s.sups = 0 := by
-        have := wLt hu
-        simp only [hpc, CPc.isGive, ind_true] at *; omega
-      have e4 : marksOf s.queue = 0 := by
-        have := wLt hu
-        simp only [hpc, CPc.isGive, ind_true] at *; omega
-      apply fifoOk_no_items _ _ _ fifo e4
-      intro i
-      unfold endedAt
-      cases hi : s.sups[i]? with
-      | none => rfl
-      | some b =>
-        have m1 := cntS_zero_mem _ _ e1 b (mem_of_getElem? hi)
-        have m2 := cntS_zero_mem _ _ e2 b (mem_of_getElem? hi)
-        have m3 := cntS_zero_mem _ _ e3 b (mem_of_getElem? hi)
-        cases hb : b.pc <;> simp [hb] at m1 m2 m3 ⊢
-    have hnm : c.m ≤ s.used + 1 → cntS SPc.noMark s.sups = 0 := by
-      intro hu2
-      have := wLt hu
-      simp only [hpc, CPc.isGive, ind_true] at *; omega
-    cfin h hpc hnr
-  | cTest j a h hpc =>
-    cfacts h
-    have hnr : s.rpc ≠ .get := by
-      intro hr; have := (rn hr).2 a (mem_of_getElem? h); simp [hpc] at this
-    cases hf : usedFull c s
-    · cfin h hpc hnr
-    · cfin h hpc hnr
-  | cUnlockLast j a h hpc =>
-    cfacts h
-    have hnr : s.rpc ≠ .get := by
-      intro hr; have := (rn hr).2 a (mem_of_getElem? h); simp [hpc] at this
-    cfin h hpc hnr
-  | cUnlockGo j a h hpc =>
-    cfacts h
-    have hnr : s.rpc ≠ .get := by
-      intro hr; have := (rn hr).2 a (mem_of_getElem? h); simp [hpc] at this
-    cfin h hpc hnr
-  | cExtra j a h hpc hroom =>
-    cfacts h
-    have hnr : s.rpc ≠ .get := by
-      intro hr; have := (rn hr).2 a (mem_of_getElem? h); simp [hpc] at this
-    have hE0 : s.extraOut = false := by
-      cases hx : s.extraOut with
-      | false => rfl
-      | true =>
-        exfalso
-        simp only [hx, hpc, CPc.isExtra, ind_true] at *
-        omega
-    simp only [hE0, ind_false] at *
-    cfin h hpc hnr
-    exact fifoOk_append_mark _ _
-  | cRetry j a h hw hb hdue hstop =>
-    cfacts h
-    have hnr : s.rpc ≠ .get := by
-      intro hr; have := (rn hr).2 a (mem_of_getElem? h); rw [this] at hw; simp [CPc.waiting] at hw
-    refine ⟨?_, ?_, ?_, ?_, ?_, ?_, ?_, ?_, ?_, ?_, ?_, ?_, ?_, ?_, ?_, ?_⟩ <;>
-      simp only [cntC_set h, List.length_set] <;>
-      first | assumption | omega | (intro hr; exact absurd hr hnr) | skip
-  | cStop j a h hw hb hdue hstop =>
-    cfacts h
-    have hnr : s.rpc ≠ .get := by
-      intro hr; have := (rn hr).2 a (mem_of_getElem? h); rw [this] at hw; simp [CPc.waiting] at hw
-    -- a consumer inside `put(None)` is never blocked: the queue is empty at that moment
-    have hempty : (a.pc = .reput ∨ a.pc = .extra) → s.queue = [] := by
-      intro hp
-      have hu : c.m ≤ s.used := by
-        rcases hp with hp | hp <;> simp only [hp, CPc.isReput, CPc.isExtra, ind_true] at * <;> omega
-      have := wEq hu
-      apply queue_nil_of _ (noItems hu)
-      rcases hp with hp | hp <;> simp only [hp, CPc.isReput, CPc.isExtra, CPc.isChk2, CPc.isLock,
-        CPc.isTake, ind_true, ind_false] at * <;> omega
-    cases hpc : a.pc <;> simp [CPc.waiting, hpc] at hw
-    · cfin h hpc hnr
-    · have := room_of_empty c s (hempty (Or.inl hpc)); simp [cBlocked, hpc, this] at hb
-    · have := room_of_empty c s (hempty (Or.inr hpc)); simp [cBlocked, hpc, this] at hb
-  -- ------------------------------------------------------------ renew
-  | rStartOk hr hall hf =>
-    refine ⟨lenS, lenC, tok, spareEq, mkr, mutex, wLt, wEq, fifo, noItems, ?_, ?_, perm, hist, nme, lkT⟩
-    · intro _; exact ⟨by simpa [usedFull] using hf, hall⟩
-    · simp
-  | rStartFail hr hall hf =>
-    exfalso
-    cases hc : s.cons with
-    | nil => simp [hc] at lenC; omega
-    | cons b l =>
-      have hb : s.cons[0]? = some b := by simp [hc]
-      have hd := hall b (mem_of_getElem? hb)
-      have := cntC_ge CPc.isDone hb
-      simp only [usedFull, decide_eq_false_iff_not, Nat.not_le] at hf
-      have := wLt hf
-      simp only [hd, CPc.isDone, ind_true] at *
-      omega
-  | rGetMark rest hr hq hu =>
-    obtain ⟨hu2, hall⟩ := rn hr
-    have z : ∀ q : CPc → Bool, q .done = false → cntC q s.cons = 0 := by
-      intro q hq2
-      exact cntC_zero_of_all q _ (fun a ha => by rw [hall a ha]; exact hq2)
-    have z1 := z CPc.isChk2 rfl; have z2 := z CPc.isReput rfl; have z3 := z CPc.isLock rfl
-    have z4 := z CPc.isTake rfl; have z5 := z CPc.isGive rfl; have z6 := z CPc.isTest rfl
-    have z7 := z CPc.isUnlT rfl; have z8 := z CPc.isUnlF rfl; have z9 := z CPc.isExtra rfl
-    have hni := noItems hu2
-    rw [hq] at mkr hni
-    simp only [marksOf, itemsOf] at mkr hni
-    have hrest : rest = [] := queue_nil_of rest hni (by omega)
-    have hlk : s.lock = false := by
-      cases hl : s.lock with
-      | false => rfl
-      | true => simp only [hl, ind_true] at mutex; omega
-    refine ⟨?_, ?_, ?_, ?_, ?_, ?_, ?_, ?_, ?_, ?_, ?_, ?_, ?_, ?_, ?_, ?_⟩ <;>
-      simp only [cntC_replicate, cntS_replicate, freshCon, freshSup, List.length_replicate, hrest, hlk,
-        CPc.isChk2, CPc.isReput, CPc.isLock, CPc.isTake, CPc.isGive, CPc.isTest, CPc.isUnlT, CPc.isUnlF,
-        CPc.isExtra, CPc.isDone, SPc.isPe1, SPc.notStarted, SPc.noMark, ind_true, ind_false, marksOf,
-        itemsOf, fifoOk, Nat.mul_zero, Nat.mul_one, List.map_nil, List.append_nil] <;>
-      first | omega | (intro _; omega) | trivial | (intro _; trivial) | skip
-    · intro pg hpg
-      rcases List.mem_append.mp hpg with h1 | h1
-      · exact hist pg h1
-      · simp at h1; subst h1
-        rw [hq] at perm
-        simpa [itemsOf, hrest] using perm
-  | rGetItem i x rest hr hq =>
-    exfalso
-    have := noItems (rn hr).1
-    rw [hq] at this; simp [itemsOf] at this
-  | rRetry hr hq hdue hstop =>
-    exact ⟨lenS, lenC, tok, spareEq, mkr, mutex, wLt, wEq, fifo, noItems, rn, rf, perm, hist, nme, lkT⟩
-  | rStop hr hq hdue hstop =>
-    refine ⟨lenS, lenC, tok, spareEq, mkr, mutex, wLt, wEq, fifo, noItems, ?_, ?_, perm, hist, nme, lkT⟩
-    · intro hh; cases hh
-    · simp
-  | setStop hstop =>
-    exact ⟨lenS, lenC, tok, spareEq, mkr, mutex, wLt, wEq, fifo, noItems, rn, rf, perm, hist, nme, lkT⟩
-  | tick hnd =>
-    exact ⟨lenS, lenC, tok, spareEq, mkr, mutex, wLt, wEq, fifo, noItems, rn, rf, perm, hist, nme, lkT⟩
+  have h4 : a.grp = 0 ∨ a.grp = 1 ∨ a.grp = 2 ∨ a.grp = 3 := by cases a <;> simp [Act.grp]
+  rcases h4 with h | h | h | h
+  · exact inv_step_0 c hm hn s s' a hi hs h
+  · exact inv_step_1 c hm hn s s' a hi hs h
+  · exact inv_step_2 c hm hn s s' a hi hs h
+  · exact inv_step_3 c hm hn s s' a hi hs h
 
 /-- a consumer inside `put(None)` (handing the marker on, or adding the extra one) finds the queue
     empty, so that `put` never blocks -/
@@ -435,3 +137,4 @@ theorem all_reachable (c : Cfg) (hm : 1 ≤ c.m) (hn : 1 ≤ c.n) {s : State} (h
   reachable_inv c (Inv c) (inv_init c hm) (fun s a s' hi hs => inv_step c hm hn s s' a hi hs) hr
 
 end IterQueue
+
